@@ -161,6 +161,18 @@ func cmdReplay(args []string) int {
 		return 2
 	}
 	defer ov.cleanup()
+	if rf.Kind == "nontermination" {
+		// the recorded input must not terminate natively either: a 60 s test deadline, no result = reproduced
+		gNativeTimeout = "60s"
+		res, err := runNative(ov, rf.Pkg, []*Vector{rf.Vector})
+		if err == nil && len(res) == 1 && (res[0].Status == "ok" || strings.HasPrefix(res[0].Status, "assert:")) {
+			fmt.Printf("replay %s %s: the native run terminated (%s)\n", rf.Property, rf.Harness, res[0].Status)
+			return 0
+		}
+		fmt.Printf("replay %s %s: the native run did not finish within 60 s\n", rf.Property, rf.Harness)
+		fmt.Printf("VIOLATION property=%s replay=%s\n", rf.Property, args[0])
+		return 1
+	}
 	res, err := runNative(ov, rf.Pkg, []*Vector{rf.Vector})
 	if err != nil {
 		fmt.Println("ERROR:", err)
@@ -260,7 +272,7 @@ func writeEvidence(id, tier string, seed int, cfg *CheckCfg, ld *Loaded, results
 		"queries": map[string]any{
 			"total": atomic.LoadInt64(&gStats.Queries), "sat": gStats.Sat, "unsat": gStats.Unsat, "unknown": gStats.Unknown,
 			"errors": gStats.Errors, "fallback_runs": gStats.Fallback, "fallback_backends": gBackendUse.m,
-			"primary": "z3-new 5.1.0 -in (one self-contained push/pop query per decision, sliced to the variables involved)", "fallback": "z3 4.8.12, cvc5 1.0 (QF_BV), cvc5 --solve-bv-as-int=sum",
+			"primary": "z3-new 5.1.0 -in (one self-contained push/pop query per decision, sliced to the variables involved)", "fallback": "fresh z3 5.1.0 process, z3 4.8.12, cvc5 1.0 (QF_BV), cvc5 --solve-bv-as-int=sum first for mul/div queries",
 		},
 		"solver_s": float64(gStats.Nanos) / 1e9,
 		"engine":   "symgo: symbolic execution of go/ssa (x/tools v0.50.0) rebuilt from /repo on this run",
